@@ -34,4 +34,23 @@ def restart (t0 : T) (m0 : M) (s : State P T M) : State P T M := { s with t := t
 def runBlocks (step : P → T → B → P × T) (t0 : T) (s : State P T M) (bs : List B) : State P T M :=
   bs.foldl (fun acc b => commit t0 (blockStep step acc b)) s
 
+/-! (iii) A block transition that MAY read and write process memory (package-level variables, caches, a big.Int shared by
+two values): what a long-running node carries from block to block, and what a node started afresh does not have. -/
+
+/-- one block on a node that keeps its memory -/
+def blockStepM (step : P → T → M → B → (P × T) × M) (s : State P T M) (b : B) : State P T M :=
+  { p := (step s.p s.t s.m b).1.1, t := (step s.p s.t s.m b).1.2, m := (step s.p s.t s.m b).2 }
+
+/-- a node that never stops -/
+def runKeep (step : P → T → M → B → (P × T) × M) (t0 : T) (s : State P T M) (bs : List B) : State P T M :=
+  bs.foldl (fun acc b => commit t0 (blockStepM step acc b)) s
+
+/-- a node that executes every block in a fresh process: memory starts from `m0` each time (harness/c19.go, fourth replica) -/
+def runFresh (step : P → T → M → B → (P × T) × M) (t0 : T) (m0 : M) (s : State P T M) (bs : List B) : State P T M :=
+  bs.foldl (fun acc b => commit t0 (blockStepM step { acc with m := m0 } b)) s
+
+/-- the stores a block produces do not depend on what is in memory -/
+def MemIndependent (step : P → T → M → B → (P × T) × M) : Prop :=
+  ∀ p t m m' b, (step p t m b).1 = (step p t m' b).1
+
 end Elys.Determinism
